@@ -1169,7 +1169,9 @@ fn registry_shapes() -> Vec<Dev> {
     ]
 }
 
-fn run_scenario(ctx: &mut Ctx, keys: &Keys, s: &Scenario, label: &str) {
+fn run_scenario(ctx: &mut Ctx, keys: &Keys, s: &Scenario, label: &str) { run_scenario_across(ctx, keys, s, label, 0) }
+
+fn run_scenario_across(ctx: &mut Ctx, keys: &Keys, s: &Scenario, label: &str, across_secs: u64) {
     let now = std::time::SystemTime::now().duration_since(std::time::UNIX_EPOCH).unwrap().as_secs();
     // a combination of deviations that x509-cert itself refuses to encode is not a certificate: skipped (and counted)
     let built = catch(|| {
@@ -1193,7 +1195,19 @@ fn run_scenario(ctx: &mut Ctx, keys: &Keys, s: &Scenario, label: &str) {
             return;
         }
     };
+    judge(ctx, s, label, &leaf, &rest, &reg, now);
+    // the SAME certificates judged again after the wall clock has moved on (a validity boundary a few seconds ahead is
+    // crossed in between): the verdict is the one of the moment of the call
+    if across_secs > 0 {
+        std::thread::sleep(Duration::from_secs(across_secs));
+        let later = std::time::SystemTime::now().duration_since(std::time::UNIX_EPOCH).unwrap().as_secs();
+        ctx.count("clock:judged-again-later");
+        judge(ctx, s, &format!("{label}:later"), &leaf, &rest, &reg, later);
+    }
+}
 
+fn judge(ctx: &mut Ctx, s: &Scenario, label: &str, leaf: &Certificate, rest: &[Certificate], reg: &[(Certificate, TrustPurpose)], now: u64) {
+    let (leaf, rest, reg) = (leaf.clone(), rest.to_vec(), reg.to_vec());
     // implementation
     let mut b = X5Chain::builder().with_certificate(leaf.clone()).expect("x5chain");
     for c in &rest {
@@ -1321,6 +1335,25 @@ pub fn run(ctx: &mut Ctx) {
                 }
             }
         }
+    }
+    // the clock crosses a validity boundary between two validations of the same chain against the same registry, in one
+    // process: anchor / leaf about to expire, anchor / leaf about to become valid (all four judged together, one wait)
+    for rs in rulesets {
+        let mut plans = vec![];
+        for (what, f) in [("anchor:expires-in-3s", (|s: &mut Scenario| { s.anchor.not_after = 3; sync_anchor(s) }) as fn(&mut Scenario)),
+                          ("anchor:valid-in-3s", |s: &mut Scenario| { s.anchor.not_before = 3; sync_anchor(s) }),
+                          ("leaf:expires-in-3s", |s: &mut Scenario| { s.leaf.not_after = 3 }),
+                          ("leaf:valid-in-3s", |s: &mut Scenario| { s.leaf.not_before = 3 })] {
+            let mut s = base(&keys, rs, rs == Rs::Aamva);
+            f(&mut s);
+            s.tags.push(what.to_string());
+            plans.push(s);
+        }
+        // judged now (three of them one by one without waiting), and the last one waits for all
+        for (i, s) in plans.iter().enumerate() { if i + 1 < plans.len() { run_scenario(ctx, &keys, s, "clock") } }
+        // build all at the same `now`, wait once: simplest is to wait on each in turn with a short gap
+        for s in &plans { run_scenario_across(ctx, &keys, s, "clock", 4); }
+        if !ctx.thorough { break; }
     }
     let n_random = ctx.budget(260, 12_000);
     for _ in 0..n_random {
